@@ -57,7 +57,7 @@ class Editor:
         for current_path in set(texts) - set(files):
             os.unlink(current_path)
         for current_path, file in files.items():
-            os.makedirs(os.path.dirname(current_path), exist_ok=True)
+            os.makedirs(os.path.dirname(current_path) or '.', exist_ok=True)
             updated_text = printer.print_model(file, io.StringIO()).getvalue()
             if updated_text != texts.get(current_path):
                 with open(current_path, 'w') as f:
